@@ -29,16 +29,21 @@ Vocabulary (defined in `Goat/Spec/FS.lean`, `Goat/Base/*.lean`, `Goat/Proofs/*.l
                       names of `t` and of `segs` is true of all names of `t'`
   `supplied ops`      every real name occurring in the normal forms of the path arguments of `ops`
 
-SNAPSHOT CLAUSE — not a theorem here.  Full-strength statement (DESIGN C01, heap-level model):
-     ∀ ops, callerIds (runHeap ops) ∩ reachableIds (runHeap ops).tree = ∅
-  "no buffer or listing the caller holds is reachable from the tree, and vice versa, after any
-   history including caller-side mutations".
-  The value-level model below cannot express aliasing (its byte strings and listings are values), so
-  in it the clause holds vacuously; the heap-level model was cut (DESIGN 3.22 stretch item).  The
-  clause is decided by the alias probes `keep`/`mutate`/`recheck` of the correspondence and of the
-  oracle (checks/c01.py), and is labelled correspondence-only in MANIFEST `level_note`.
+SNAPSHOT CLAUSE — section 5 below, on the heap-level model `Goat/Model/MemFSHeap.lean`.
+  The value-level model cannot express aliasing (its byte strings and listings are values), so the
+  clause is carried by a second model of the same Go code in which every slice is an object in a heap
+  (`BufId`), the caller holds handles, and "the caller writes into something it holds" is an operation:
+     `snapshot_inv`        ∀ histories, caller-held ids ∩ ids reachable from the tree = ∅, no id is
+                           reachable from two tree positions, everything reachable is allocated
+     `snapshot_sim`        the heap model, dereferenced, IS the value model on every history — every
+                           theorem of sections 2–4 transfers to it
+     `handed_out_stable`, `handed_in_stable`, `copy_shares_nothing`   the three sentences of the clause
+     `snapshot_prefix_variant_false`   for the code before c1f9074 / e4e01df the invariant is false
+  The tie heap model ↔ /repo is the alias-probe differential of checks/c01.py (`m_fsheap`).
 -/
 import Goat.Proofs.MemFSCor
+import Goat.Proofs.MemFSHeapSnap
+import Goat.Proofs.MemFSHeapSync
 
 namespace Goat.C01
 
@@ -147,11 +152,11 @@ example :
         (1, .remove []), (0, .readDir [])]).2
       = [.ok, .ok, .data [1, 2], .ok, .bool false, .err, .list [([97], true)]] := by decide
 
-/-- SNAPSHOT CLAUSE, value-level part only (see the header for the full-strength statement, which is
-not proved).  In the model every result handed out is a value: whatever a history has answered is
-left unchanged by any continuation of the history.  What is missing: the model has no heap, so it
-cannot express that a Go slice returned by `ReadFile`/`ReadDir` (or passed to `WriteFile`) is not
-aliased by the tree — that is checked on the implementation by the alias probes. -/
+/-- SNAPSHOT CLAUSE, value-level part only.  In the value model every result handed out is a value:
+whatever a history has answered is left unchanged by any continuation of the history.  The value model
+has no heap, so it cannot say that a Go slice returned by `ReadFile`/`ReadDir` (or passed to
+`WriteFile`) is not aliased by the tree; that is proved on the heap-level model in section 5
+(`snapshot_inv`, `snapshot_sim`, `handed_out_stable`, `handed_in_stable`, `copy_shares_nothing`). -/
 theorem snapshot_partial (w : World) (ops more : List (Nat × Op)) :
     (w.run (ops ++ more)).2 = (w.run ops).2 ++ ((w.run ops).1.run more).2 :=
   (run_append w ops more).1
@@ -350,5 +355,168 @@ example :
 example :
     (World.init.run [(0, .writeFile [102] [104, 101, 108, 108, 111]), (0, .writer [102] [[97], [98]]),
         (0, .readFile [102])]).2 = [.ok, .ok, .data [97, 98]] := by decide
+
+/-! ### 5. The snapshot clause, on the heap-level model
+
+`Goat/Model/MemFSHeap.lean` mirrors the same Go code one level lower: every `[]byte` and every
+`[]os.FileInfo` is an object in a heap (`BufId`), a file node holds the id of its data array, a
+directory node the id of its node array, the caller holds `Handle`s (buffers it made and handed in,
+slices it was handed out) and can write through them (`HOp.mutate`) at any point of a history.
+`cfg.old = false` selects the code as it is now (copies at `WriteFile`, `ReadFile`, `ReadDir`, `copyFile`);
+`cfg.realloc` is Go's unspecified `append` growth policy — every theorem holds for every policy.
+
+Vocabulary (`Goat/Model/MemFSHeap.lean`, `Goat/Proofs/MemFSHeap*.lean`):
+  `HWorld.run cfg w ops`   a history of `HOp`s: filespace calls through any open handle (`.call n c`, byte
+                           arguments are ids of caller buffers), `.alloc`, `.mutate`, `.keep`, `.recheck`
+  `Sep w`                  ∀ held handle, its id ∉ `w.root.ids`;  `w.root.ids.Nodup`;  every id of the tree
+                           and of a held handle is allocated;  held handles have pairwise different ids
+  `deref w`                the value-level `World`: every id replaced by its content
+  `traceOps`, `callResults`  the value-level history a heap-level history induces, and its results
+  `view h hd`              what the caller sees through handle `hd` in heap `h`
+  `applyOwn hd ops v`      `v` with the caller's own `mutate`s through `hd` applied, nothing else -/
+
+section Snapshot
+open Goat.MemFSHeap
+
+/-- SNAPSHOT INVARIANT, all histories: after any sequence of filespace calls (16 methods, any handle,
+any spelling), caller allocations and caller writes into anything the caller holds, no buffer or
+listing held by the caller is reachable from the tree, no object is reachable from two positions of
+the tree, and everything reachable is allocated. -/
+theorem snapshot_inv (cfg : Cfg) (hc : cfg.old = false) (ops : List HOp) : Sep (HWorld.init.run cfg ops).1 :=
+  sep_run cfg hc _ sep_init ops
+
+/-- the invariant is inductive: it is kept by every single step from any world that has it -/
+theorem snapshot_inv_step (cfg : Cfg) (hc : cfg.old = false) (w : HWorld) (hs : Sep w) (op : HOp) :
+    Sep (w.step cfg op).1 :=
+  sep_step cfg hc w hs op
+
+/-- SIMULATION, all histories: dereferenced, the heap model is the value model — same tree, same open
+handles, same results of all calls — where a `WriteFile`/`Write` passes the bytes its buffer holds at the
+time of the call and every caller-side step is invisible.  Hence `memfs_run_refines` and every sentence
+of section 4 hold of the heap model. -/
+theorem snapshot_sim (cfg : Cfg) (hc : cfg.old = false) (ops : List HOp) :
+    deref (HWorld.init.run cfg ops).1 = (World.init.run (traceOps cfg HWorld.init ops)).1
+    ∧ callResults cfg HWorld.init ops = (World.init.run (traceOps cfg HWorld.init ops)).2 := by
+  have h := sim_run cfg hc _ sep_init ops
+  rwa [deref_init] at h
+
+/-- … and therefore refines the abstract tree: the specification's run on the induced history -/
+theorem snapshot_refines (cfg : Cfg) (hc : cfg.old = false) (ops : List HOp) :
+    FS.Run [[]] State.empty (traceOps cfg HWorld.init ops) (callResults cfg HWorld.init ops)
+      (abs (deref (HWorld.init.run cfg ops).1).root) := by
+  rw [(snapshot_sim cfg hc ops).1, (snapshot_sim cfg hc ops).2]
+  exact (memfs_run_refines _).1
+
+/-- "a later operation on the tree does not change a buffer or listing the caller already holds":
+whatever the caller holds after a history `pre` (handed out by `ReadFile`/`ReadDir`/`Read`, or made by
+itself and handed in), what it sees through it after any further history `post` is what it saw, changed
+only by its own `mutate`s through that handle — never by a filespace call. -/
+theorem handed_out_stable (cfg : Cfg) (hc : cfg.old = false) (pre post : List HOp) (hd : Handle)
+    (hh : hd ∈ (HWorld.init.run cfg pre).1.held) :
+    view (HWorld.init.run cfg (pre ++ post)).1.heap hd
+      = applyOwn hd post (view (HWorld.init.run cfg pre).1.heap hd) := by
+  rw [(MemFSHeap.run_append cfg _ pre post).1]
+  exact MemFSHeap.handed_out_stable cfg hc _ (snapshot_inv cfg hc pre) hd hh post
+
+/-- what a call hands out is held from then on (so `handed_out_stable` applies to it) … -/
+theorem handed_out_is_held (cfg : Cfg) (w : HWorld) (n : Nat) (c : HCall) :
+    ∀ hd ∈ outHandles c (w.step cfg (.call n c)).2, hd ∈ (w.step cfg (.call n c)).1.held :=
+  handed_out_held cfg w n c
+
+/-- … and what `ReadFile` / `ReadDir` hand out shows exactly what they answered -/
+theorem handed_out_shows_result (cfg : Cfg) (hc : cfg.old = false) (w : HWorld) (n : Nat) (p : Bytes) :
+    (∀ hd ∈ outHandles (.readFile p) (w.step cfg (.call n (.readFile p))).2,
+      view (w.step cfg (.call n (.readFile p))).1.heap hd = (w.step cfg (.call n (.readFile p))).2.res)
+    ∧ (∀ hd ∈ outHandles (.readDir p) (w.step cfg (.call n (.readDir p))).2,
+      view (w.step cfg (.call n (.readDir p))).1.heap hd = (w.step cfg (.call n (.readDir p))).2.res) :=
+  ⟨MemFSHeap.handed_out_shows_result cfg hc w n _ (Or.inl ⟨p, rfl⟩),
+   MemFSHeap.handed_out_shows_result cfg hc w n _ (Or.inr ⟨p, rfl⟩)⟩
+
+/-- the node arrays are in step with the tree on every history: the directory `ReadDir` finds holds
+exactly its entries in the first `len` places of its array (which `removeNodeByName` shifts in place and
+`append` overwrites or reallocates) — the copy of `k.entries` the model's `ReadDir` hands out is the copy
+of `d.nodes[:len]` the Go code makes. -/
+theorem listing_sync (cfg : Cfg) (hc : cfg.old = false) (ops : List HOp) (p : Bytes) (l : BufId) (k : HKids)
+    (hg : getDirByPath (HWorld.init.run cfg ops).1.root p = some (l, k)) :
+    ((HWorld.init.run cfg ops).1.heap.lists l).take k.length = k.entries :=
+  readDir_reads_array cfg hc ops p l k hg
+
+/-- "a later mutation of the caller's buffer does not change the tree": after a successful
+`WriteFile(raw, id)`, any sequence of caller-side steps (writes into `id` included) leaves
+`ReadFile(raw)` = the bytes `id` held at the time of the call. -/
+theorem handed_in_stable (cfg : Cfg) (hc : cfg.old = false) (pre : List HOp) (n : Nat) (raw : Bytes)
+    (id : BufId) (hh : Handle.buf id ∈ (HWorld.init.run cfg pre).1.held) (muts : List HOp)
+    (hm : ∀ op ∈ muts, op.isCaller = true)
+    (hok : ((HWorld.init.run cfg pre).1.step cfg (.call n (.writeFile raw id))).2.res = .ok) :
+    ((((HWorld.init.run cfg pre).1.step cfg (.call n (.writeFile raw id))).1.run cfg muts).1.step cfg
+        (.call n (.readFile raw))).2.res
+      = .data ((HWorld.init.run cfg pre).1.heap.bytes id) :=
+  handed_in_stable_init cfg hc pre n raw id hh muts hm hok
+
+/-- more generally no caller-side step is visible in the value-level world at all -/
+theorem caller_steps_invisible (cfg : Cfg) (hc : cfg.old = false) (pre muts : List HOp)
+    (hm : ∀ op ∈ muts, op.isCaller = true) :
+    deref (HWorld.init.run cfg (pre ++ muts)).1 = deref (HWorld.init.run cfg pre).1 := by
+  rw [(MemFSHeap.run_append cfg _ pre muts).1]
+  exact caller_run_deref cfg hc _ (snapshot_inv cfg hc pre) muts hm
+
+/-- "two nodes never share mutable storage", in particular source and destination of a copy: after
+any history followed by a `Copy`/`CopyFile`/`CopyDirectory` (or any other call) the nodes at or below `s`
+and the nodes at or below `d` have no heap object in common, for any two paths neither of which is a
+prefix of the other. -/
+theorem copy_shares_nothing (cfg : Cfg) (hc : cfg.old = false) (ops : List HOp) (n : Nat) (c : HCall)
+    (s d r₁ r₂ : List Name) (a b : HNode) (h1 : ¬ s <+: d) (h2 : ¬ d <+: s)
+    (ha : ((HWorld.init.run cfg ops).1.step cfg (.call n c)).1.root.lookup (s ++ r₁) = some a)
+    (hb : ((HWorld.init.run cfg ops).1.step cfg (.call n c)).1.root.lookup (d ++ r₂) = some b) :
+    ∀ id ∈ a.ids, id ∉ b.ids :=
+  nodes_share_nothing _ (snapshot_inv_step cfg hc _ (snapshot_inv cfg hc ops) (.call n c)) _ _ a b ha hb
+    (incomparable_append s d r₁ r₂ h1 h2) (incomparable_append d s r₂ r₁ h2 h1)
+
+/-- THE PRE-FIX CODE (before c1f9074 "memfs copies file data on the way in and out" and e4e01df "ReadDir
+returns a snapshot") does not have the invariant: without `cfg.old = false` the statement of
+`snapshot_inv` is false, with the documented symptoms as witnesses — the file reads `Xello` after the
+caller overwrote the buffer it had passed to `WriteFile`, `XYllo` after it overwrote the slice `ReadFile`
+returned; a held listing `a b c` reads `b c c` after `Remove("a")`. -/
+theorem snapshot_prefix_variant_false :
+    (¬ ∀ (cfg : Cfg) (ops : List HOp), Sep (HWorld.init.run cfg ops).1)
+    ∧ (HWorld.init.run Cfg.preFix aliasDataOps).2.map (·.res)
+        = [.ok, .ok, .ok, .data [88, 101, 108, 108, 111], .ok, .data [88, 89, 108, 108, 111]]
+    ∧ ((HWorld.init.run Cfg.preFix aliasListOps).2.map (·.res)).getLast?
+        = some (.list [([98], false), ([99], false), ([99], false)]) :=
+  ⟨fun h => prefix_variant_data.2 (h Cfg.preFix aliasDataOps), prefix_variant_data.1,
+   by rw [prefix_variant_listing.1]; rfl⟩
+
+-- non-vacuity: the repaired code (`Cfg.fixed`, doubling growth policy) on the two histories of the
+-- corpus (02-data-alias, 03-listing-alias) with keep/mutate/recheck:
+--   alloc "hello" (buffer 1); WriteFile("f", 1); buf1[0]='X'; ReadFile("f") = "hello" (handed out: 4);
+--   buf4[1]='Y'; ReadFile("f") = "hello"; recheck 1 = "Xello"; recheck 4 = "hYllo"
+example : (HWorld.init.run Cfg.fixed fixedDataOps).2.map (·.res)
+    = [.ok, .ok, .ok, .data [104, 101, 108, 108, 111], .ok, .data [104, 101, 108, 108, 111],
+       .data [88, 101, 108, 108, 111], .data [104, 89, 108, 108, 111]] := fixed_variant_histories.1
+--   files a b c; ReadDir("") = a b c (handed out: listing 10, length 3); Remove("a");
+--   recheck = a b c; ReadDir("") = b c
+example : (HWorld.init.run Cfg.fixed fixedListOps).2.map (·.res)
+    = [.ok, .ok, .ok, .ok, .ok, .ok, .list [([97], false), ([98], false), ([99], false)], .ok,
+       .list [([97], false), ([98], false), ([99], false)], .list [([98], false), ([99], false)]] :=
+  fixed_variant_histories.2
+-- the hypotheses of `handed_out_stable` / `handed_in_stable` are satisfiable: buffer 1 and slice 4 are held
+example : Handle.buf 1 ∈ (HWorld.init.run Cfg.fixed (fixedDataOps.take 1)).1.held
+    ∧ Handle.buf 4 ∈ (HWorld.init.run Cfg.fixed (fixedDataOps.take 4)).1.held
+    ∧ ((HWorld.init.run Cfg.fixed (fixedDataOps.take 1)).1.step Cfg.fixed (.call 0 (.writeFile [102] 1))).2.res = .ok := by
+  decide
+-- `applyOwn` is the caller's own writes: through slice 4, the rest of the data history is one write
+example : applyOwn (.buf 4) (fixedDataOps.drop 4) (.data [104, 101, 108, 108, 111])
+    = .data [104, 89, 108, 108, 111] := by decide
+-- `copy_shares_nothing`: a/x copied to c — source [a] and destination [c] both exist, ids 2|3|… differ
+example :
+    let w := (HWorld.init.run Cfg.fixed [.alloc [1], .call 0 (.writeFile [97, 47, 120] 1), .call 0 (.copy [97] [99])]).1
+    (w.root.lookup [[97]]).isSome ∧ (w.root.lookup [[99], [120]]).isSome ∧ ¬ [[97]] <+: [[99]] := by decide
+-- `listing_sync`: after the listing history (three adds, one in-place removal) the root directory is found
+example : (getDirByPath (HWorld.init.run Cfg.fixed fixedListOps).1.root []).isSome := by decide
+-- the invariant itself on a concrete world, and its failure for the pre-fix code
+example : Sep (HWorld.init.run Cfg.fixed fixedDataOps).1 := snapshot_inv Cfg.fixed rfl _
+example : ¬ Sep (HWorld.init.run Cfg.preFix aliasDataOps).1 := prefix_variant_data.2
+
+end Snapshot
 
 end Goat.C01
